@@ -17,7 +17,7 @@ CHECKS = {
         text="200k (quick) / 5M (thorough) generated snapshot sequences (joins, leaves, rejoins, address changes, addresses shared or handed over between ids), subscription moments and read patterns on one real node.",
         note="Snapshots are injected where chitchat would publish them (H-members). The recorded finding 'watch-latest-only' is excluded by its exact signature (every observed delta correct AND the subscriber missed a delta); any wrong delta is still a violation.", ref="3 C16"),
     "C19": dict(engine="E3-cluster", technique=PBT + " (differential: state received through the real service+client vs independently built reference set, probe grid of further operations)",
-        text="6000 (quick) / 300k (thorough) sender states up to 20000 entries (live or tombstones) fetched with the real get_state path at the end and after generated build stages (ops, purges, bulk loads), compared on live ids, tombstones, stamps, will_apply probes and one further operation; 3000 reply frames with every bit flip / truncation refused.",
+        text="60k (quick) / 3M (thorough) interleavings of writes and state requests on a store with write latency (a reply labelled with the final change stamp must carry the final state), plus 6000 (quick) / 300k (thorough) sender states up to 20000 entries (live or tombstones) fetched with the real get_state path at the end and after generated build stages (ops, purges, bulk loads), compared on live ids, tombstones, stamps, will_apply probes and one further operation; 3000 reply frames with every bit flip / truncation refused.",
         note="The reference set is built by applying the same operations directly to an OrSWotSet of the harness (trusts the CRDT, which C03-C05 cover).", ref="3 C19"),
     "C11": dict(engine="E6-clock", technique=PBT + " (generated task scripts with barriers; schedule owned on a current-thread runtime, sampled on 4 workers)",
         text="60k generated multi-task scripts on a current-thread runtime where the interleaving is a function of the generated yields, plus 500 x 8 runs on a 4-worker runtime, plus 4000 crowds of 1050-2600 tasks (more callers than the clock's 1000-slot request queue); uniqueness, per-task monotonicity and register->get causality (program order and barrier chains) are checked on every run.",
